@@ -37,6 +37,13 @@ PROPS = {
         claim='BOUNDED: after every create/delete/update in all operation sequences of length <= 5 over <= 4 nodes (incl. self-loops, parallel and undirected edges, hubs above the parallel-deletion threshold) the graph is well-formed, the edge set changed exactly as specified, and neighbors/degree/traverse equal the spec computed from all_edges. The multi-thread clause is NOT covered.',
         explanation='Bounded stand-in only. Sequential contracts; concurrency out of reach of this technique.',
     ),
+    'C08': dict(
+        v=[], k=[], b=['c08_rollback'],
+        level='other',
+        technique='bounded native contract checks of snapshot_bytes/restore_from_bytes, CheckpointManager create/rollback/list and the QueryRouter CHECKPOINT / ROLLBACK TO / CHECKPOINTS statements: a ~100-probe view of tables, graph, embeddings and store keys is recorded at every checkpoint and compared after every rollback, over all short statement scripts; the code is async over tokio + a blob store and outside the Verus/Kani subset, so no deductive obligation is claimed',
+        claim='BOUNDED: on 32 pre-states x all enabled scripts of <= 2 statements (14 statement kinds) with a checkpoint before every statement: the view after restore / rollback equals the view at the checkpoint for every core read, further writes succeed, retention lists exactly the newest n, every listed checkpoint rolls back to its recorded view. Engine-resident indexes/counters, lossy 384-d slab embeddings and repeated rollbacks are open known findings.',
+        explanation='Bounded stand-in only (no deductive obligation).',
+    ),
     'C09': dict(
         v=[], k=[], b=['c09_reltx'],
         level='other',
